@@ -400,4 +400,32 @@ def M44.fastMinor_123_012 {α : Type} [Add α] [Sub α] [Mul α] (a : M44 α) : 
 def M44.fastMinor_013_123 {α : Type} [Add α] [Sub α] [Mul α] (a : M44 α) : α :=
   (((a.x01 * ((a.x12 * a.x33) - (a.x13 * a.x32))) + (a.x02 * ((a.x13 * a.x31) - (a.x11 * a.x33)))) + (a.x03 * ((a.x11 * a.x32) - (a.x12 * a.x31))))
 
+/-- extracted from the C++ template at T = Sym; 1 path(s) -/
+def Quat.mulAssignSelf {α : Type} [Add α] [Sub α] [Mul α] (a : Quat α) : (Quat α) :=
+  ⟨((a.r * a.r) - (((a.v.x * a.v.x) + (a.v.y * a.v.y)) + (a.v.z * a.v.z))), ⟨(((a.r * a.v.x) + (a.v.x * a.r)) + ((a.v.y * a.v.z) - (a.v.z * a.v.y))), (((a.r * a.v.y) + (a.v.y * a.r)) + ((a.v.z * a.v.x) - (a.v.x * a.v.z))), (((a.r * a.v.z) + (a.v.z * a.r)) + ((a.v.x * a.v.y) - (a.v.y * a.v.x)))⟩⟩
+
+/-- extracted from the C++ template at T = Sym; 1 path(s) -/
+def M22.mulAssignSelf {α : Type} [Add α] [Mul α] [OfNat α 0] (a : M22 α) : (M22 α) :=
+  ⟨(((0 : α) + (a.x00 * a.x00)) + (a.x01 * a.x10)), (((0 : α) + (a.x00 * a.x01)) + (a.x01 * a.x11)), (((0 : α) + (a.x10 * a.x00)) + (a.x11 * a.x10)), (((0 : α) + (a.x10 * a.x01)) + (a.x11 * a.x11))⟩
+
+/-- extracted from the C++ template at T = Sym; 1 path(s) -/
+def M33.mulAssignSelf {α : Type} [Add α] [Mul α] (a : M33 α) : (M33 α) :=
+  ⟨(((a.x00 * a.x00) + (a.x01 * a.x10)) + (a.x02 * a.x20)), (((a.x00 * a.x01) + (a.x01 * a.x11)) + (a.x02 * a.x21)), (((a.x00 * a.x02) + (a.x01 * a.x12)) + (a.x02 * a.x22)), (((a.x10 * a.x00) + (a.x11 * a.x10)) + (a.x12 * a.x20)), (((a.x10 * a.x01) + (a.x11 * a.x11)) + (a.x12 * a.x21)), (((a.x10 * a.x02) + (a.x11 * a.x12)) + (a.x12 * a.x22)), (((a.x20 * a.x00) + (a.x21 * a.x10)) + (a.x22 * a.x20)), (((a.x20 * a.x01) + (a.x21 * a.x11)) + (a.x22 * a.x21)), (((a.x20 * a.x02) + (a.x21 * a.x12)) + (a.x22 * a.x22))⟩
+
+/-- extracted from the C++ template at T = Sym; 1 path(s) -/
+def M44.mulAssignSelf {α : Type} [Add α] [Mul α] (a : M44 α) : (M44 α) :=
+  ⟨((((a.x00 * a.x00) + (a.x01 * a.x10)) + (a.x02 * a.x20)) + (a.x03 * a.x30)), ((((a.x00 * a.x01) + (a.x01 * a.x11)) + (a.x02 * a.x21)) + (a.x03 * a.x31)), ((((a.x00 * a.x02) + (a.x01 * a.x12)) + (a.x02 * a.x22)) + (a.x03 * a.x32)), ((((a.x00 * a.x03) + (a.x01 * a.x13)) + (a.x02 * a.x23)) + (a.x03 * a.x33)), ((((a.x10 * a.x00) + (a.x11 * a.x10)) + (a.x12 * a.x20)) + (a.x13 * a.x30)), ((((a.x10 * a.x01) + (a.x11 * a.x11)) + (a.x12 * a.x21)) + (a.x13 * a.x31)), ((((a.x10 * a.x02) + (a.x11 * a.x12)) + (a.x12 * a.x22)) + (a.x13 * a.x32)), ((((a.x10 * a.x03) + (a.x11 * a.x13)) + (a.x12 * a.x23)) + (a.x13 * a.x33)), ((((a.x20 * a.x00) + (a.x21 * a.x10)) + (a.x22 * a.x20)) + (a.x23 * a.x30)), ((((a.x20 * a.x01) + (a.x21 * a.x11)) + (a.x22 * a.x21)) + (a.x23 * a.x31)), ((((a.x20 * a.x02) + (a.x21 * a.x12)) + (a.x22 * a.x22)) + (a.x23 * a.x32)), ((((a.x20 * a.x03) + (a.x21 * a.x13)) + (a.x22 * a.x23)) + (a.x23 * a.x33)), ((((a.x30 * a.x00) + (a.x31 * a.x10)) + (a.x32 * a.x20)) + (a.x33 * a.x30)), ((((a.x30 * a.x01) + (a.x31 * a.x11)) + (a.x32 * a.x21)) + (a.x33 * a.x31)), ((((a.x30 * a.x02) + (a.x31 * a.x12)) + (a.x32 * a.x22)) + (a.x33 * a.x32)), ((((a.x30 * a.x03) + (a.x31 * a.x13)) + (a.x32 * a.x23)) + (a.x33 * a.x33))⟩
+
+/-- extracted from the C++ template at T = Sym; 1 path(s) -/
+def V3.crossAssignSelf {α : Type} [Sub α] [Mul α] (a : V3 α) : (V3 α) :=
+  ⟨((a.y * a.z) - (a.z * a.y)), ((a.z * a.x) - (a.x * a.z)), ((a.x * a.y) - (a.y * a.x))⟩
+
+/-- extracted from the C++ template at T = Sym; 1 path(s) -/
+def M44.multiplyStatic3AliasA {α : Type} [Add α] [Mul α] (a : M44 α) (b : M44 α) : (M44 α) :=
+  ⟨((((a.x00 * b.x00) + (a.x01 * b.x10)) + (a.x02 * b.x20)) + (a.x03 * b.x30)), ((((a.x00 * b.x01) + (a.x01 * b.x11)) + (a.x02 * b.x21)) + (a.x03 * b.x31)), ((((a.x00 * b.x02) + (a.x01 * b.x12)) + (a.x02 * b.x22)) + (a.x03 * b.x32)), ((((a.x00 * b.x03) + (a.x01 * b.x13)) + (a.x02 * b.x23)) + (a.x03 * b.x33)), ((((a.x10 * b.x00) + (a.x11 * b.x10)) + (a.x12 * b.x20)) + (a.x13 * b.x30)), ((((a.x10 * b.x01) + (a.x11 * b.x11)) + (a.x12 * b.x21)) + (a.x13 * b.x31)), ((((a.x10 * b.x02) + (a.x11 * b.x12)) + (a.x12 * b.x22)) + (a.x13 * b.x32)), ((((a.x10 * b.x03) + (a.x11 * b.x13)) + (a.x12 * b.x23)) + (a.x13 * b.x33)), ((((a.x20 * b.x00) + (a.x21 * b.x10)) + (a.x22 * b.x20)) + (a.x23 * b.x30)), ((((a.x20 * b.x01) + (a.x21 * b.x11)) + (a.x22 * b.x21)) + (a.x23 * b.x31)), ((((a.x20 * b.x02) + (a.x21 * b.x12)) + (a.x22 * b.x22)) + (a.x23 * b.x32)), ((((a.x20 * b.x03) + (a.x21 * b.x13)) + (a.x22 * b.x23)) + (a.x23 * b.x33)), ((((a.x30 * b.x00) + (a.x31 * b.x10)) + (a.x32 * b.x20)) + (a.x33 * b.x30)), ((((a.x30 * b.x01) + (a.x31 * b.x11)) + (a.x32 * b.x21)) + (a.x33 * b.x31)), ((((a.x30 * b.x02) + (a.x31 * b.x12)) + (a.x32 * b.x22)) + (a.x33 * b.x32)), ((((a.x30 * b.x03) + (a.x31 * b.x13)) + (a.x32 * b.x23)) + (a.x33 * b.x33))⟩
+
+/-- extracted from the C++ template at T = Sym; 1 path(s) -/
+def M44.multiplyStatic3AliasB {α : Type} [Add α] [Mul α] (a : M44 α) (b : M44 α) : (M44 α) :=
+  ⟨((((a.x00 * b.x00) + (a.x01 * b.x10)) + (a.x02 * b.x20)) + (a.x03 * b.x30)), ((((a.x00 * b.x01) + (a.x01 * b.x11)) + (a.x02 * b.x21)) + (a.x03 * b.x31)), ((((a.x00 * b.x02) + (a.x01 * b.x12)) + (a.x02 * b.x22)) + (a.x03 * b.x32)), ((((a.x00 * b.x03) + (a.x01 * b.x13)) + (a.x02 * b.x23)) + (a.x03 * b.x33)), ((((a.x10 * b.x00) + (a.x11 * b.x10)) + (a.x12 * b.x20)) + (a.x13 * b.x30)), ((((a.x10 * b.x01) + (a.x11 * b.x11)) + (a.x12 * b.x21)) + (a.x13 * b.x31)), ((((a.x10 * b.x02) + (a.x11 * b.x12)) + (a.x12 * b.x22)) + (a.x13 * b.x32)), ((((a.x10 * b.x03) + (a.x11 * b.x13)) + (a.x12 * b.x23)) + (a.x13 * b.x33)), ((((a.x20 * b.x00) + (a.x21 * b.x10)) + (a.x22 * b.x20)) + (a.x23 * b.x30)), ((((a.x20 * b.x01) + (a.x21 * b.x11)) + (a.x22 * b.x21)) + (a.x23 * b.x31)), ((((a.x20 * b.x02) + (a.x21 * b.x12)) + (a.x22 * b.x22)) + (a.x23 * b.x32)), ((((a.x20 * b.x03) + (a.x21 * b.x13)) + (a.x22 * b.x23)) + (a.x23 * b.x33)), ((((a.x30 * b.x00) + (a.x31 * b.x10)) + (a.x32 * b.x20)) + (a.x33 * b.x30)), ((((a.x30 * b.x01) + (a.x31 * b.x11)) + (a.x32 * b.x21)) + (a.x33 * b.x31)), ((((a.x30 * b.x02) + (a.x31 * b.x12)) + (a.x32 * b.x22)) + (a.x33 * b.x32)), ((((a.x30 * b.x03) + (a.x31 * b.x13)) + (a.x32 * b.x23)) + (a.x33 * b.x33))⟩
+
 end ImathVerif.Gen
